@@ -24,6 +24,9 @@ var (
 
 var genThorough bool
 
+// typical maps take genMapN keys of the key alphabet starting at genKeyOffset (changed only by codec.alts)
+var genKeyOffset, genMapN = 0, 3
+
 func pattern(n int, seed byte) []byte {
 	b := make([]byte, n)
 	for i := range b {
@@ -84,8 +87,8 @@ func typical(t reflect.Type, salt int) reflect.Value {
 	case reflect.Map:
 		keys := keyAlphabet(t.Key())
 		v := reflect.MakeMap(t)
-		for i := 0; i < 3; i++ {
-			v.SetMapIndex(keys[i], typical(t.Elem(), salt*8+i+1))
+		for i := 0; i < genMapN; i++ {
+			v.SetMapIndex(keys[(i+genKeyOffset)%len(keys)], typical(t.Elem(), salt*8+i+1))
 		}
 		return v
 	case reflect.Ptr:
